@@ -7,7 +7,7 @@
 """
 import json, os, re, shutil, subprocess, sys, tempfile
 
-ENV = dict(os.environ, GOFLAGS="-mod=mod", GOPROXY="off", GOSUMDB="off", GOTOOLCHAIN="local")
+ENV = dict(os.environ, GOFLAGS="-mod=mod", GOPROXY="off", GOSUMDB="off", GOTOOLCHAIN="local", GOMODCACHE="/root/go/pkg/mod", GOCACHE=os.environ.get("GOCACHE", "/root/.cache/go-build"))
 REPO = os.environ.get("SEED_REPO", "/repo")      # where patches are applied for detection
 VERIF = os.environ.get("SEED_VERIF", "/verif")   # which copy of the machinery runs
 
